@@ -355,6 +355,8 @@ def lean_lines(op):
         return ["op\tload\t" + ("-" if op[1] is None else str(op[1]))]
     if n in ("autosave", "autobuild", "autonotify"):
         return [f"op\t{n}\t{'T' if op[1] else 'F'}"]
+    if n == "setstore":
+        return ["\t".join(["setstore", enc_rules(op[1].get("p", [])), enc_rules(op[1].get("g", [])), enc_rules(op[1].get("g2", []))])]
     # RBAC API wrappers = compositions of management calls
     if n == "add_role_for_user":
         return lean_lines(("add", "g", [op[1], op[2]] + list(op[3:])))
@@ -445,6 +447,9 @@ def impl_call(e, op, is_async):
             return call("load_policy")
         finally:
             e.adapter.fail_after = None
+    if n == "setstore":
+        e.adapter.store = {k: [list(r) for r in v] for k, v in op[1].items()}
+        return None
     if n == "autosave":
         return call("enable_auto_save", op[1])
     if n == "autobuild":
@@ -547,7 +552,10 @@ def fresh_enforcer(cfg, e):
 # ------------------------------------------------------------------ running a history
 
 
-def run_history(cfg, hist, queries, fresh_oracle=True):
+EXTRAS = {}  # name -> function(cfg, enforcer) -> JSON-able probe result, evaluated after every call
+
+
+def run_history(cfg, hist, queries, fresh_oracle=True, extra=None):
     """returns per op: dict(ret, acalls, wcalls, pol, mirror, answers[list], fresh[list] or None)"""
     e, ad, w = build_enforcer(cfg)
     out = []
@@ -568,6 +576,8 @@ def run_history(cfg, hist, queries, fresh_oracle=True):
             rec["mirror"] = all(sorted(map(tuple, ad.store.get(s, []))) == sorted(map(tuple, pol[s])) for s in ("p", "g", "g2"))
             rec["store"] = {s: [list(r) for r in ad.store.get(s, [])] for s in ("p", "g", "g2")}
         rec["answers"] = [q_impl(e, q) for q in queries]
+        if extra:
+            rec["extra"] = EXTRAS[extra](cfg, e)
         if fresh_oracle:
             try:
                 f = fresh_enforcer(cfg, e)
@@ -596,8 +606,8 @@ def lean_history(cfg, hist, queries):
 
 
 def _worker(args):
-    cfg, hists, queries, fresh_oracle = args
-    return [run_history(cfg, h, queries, fresh_oracle) for h in hists]
+    cfg, hists, queries, fresh_oracle, extra = args
+    return [run_history(cfg, h, queries, fresh_oracle, extra) for h in hists]
 
 
 def parse_obs(s):
@@ -654,7 +664,7 @@ def compare_history(res, cfg, hist, impl, answers, idx, queries, judge):
             return
 
 
-def run_configs(res, jobs, judge, fresh_oracle=True, procs=12):
+def run_configs(res, jobs, judge, fresh_oracle=True, procs=12, extra=None):
     """jobs: list of (cfg, hist). One driver batch, a process pool for the real code."""
     if not jobs:
         return
@@ -672,7 +682,7 @@ def run_configs(res, jobs, judge, fresh_oracle=True, procs=12):
     groups = []
     for i in range(0, len(jobs), chunk):
         part = jobs[i : i + chunk]
-        groups.append([(cfg, [h], qcache[cfg.shape], fresh_oracle) for cfg, h in part])
+        groups.append([(cfg, [h], qcache[cfg.shape], fresh_oracle, extra) for cfg, h in part])
     flat = [g for grp in groups for g in grp]
     if len(jobs) < 64:
         outs = [_worker(a) for a in flat]
